@@ -50,8 +50,9 @@ def rule_g1(repo):
                 'reported equal but explain() finds no path (or a path through an unrelated equation)', '%s:%d' % (CONGC, u.lineno))
     # the edge joins the two constants of the equation, not their representatives' classes' other members
     ae = repo.func(CONGC, 'CongClosure._add_edge_proof_forest')
+    aeflow = flow_of(ae.node)
     stores = [n for n in ast.walk(ae.node) if isinstance(n, ast.Assign) and any(
-        isinstance(t, ast.Subscript) and path_of(t.value) == 'self.proof_forest' for t in n.targets)]
+        isinstance(t, ast.Subscript) and path_of(aeflow.inline(t.value)) == 'self.proof_forest' for t in n.targets)]
     p = ae.params()
     ok = any(isinstance(n.value, ast.Tuple) and len(n.value.elts) == 2 and is_name(n.value.elts[0], p[2]) and is_name(n.value.elts[1], p[3]) and
              is_name(n.targets[0].slice, p[1]) for n in stores if isinstance(n.targets[0], ast.Subscript))
@@ -144,11 +145,20 @@ def rule_g3(repo):
 def rule_g4(repo):
     res = RuleResult('C17.G4', 'the wrapper keeps a proof under the pair it merged, and extends an explanation chain by exactly the next step', floor=3)
     m = repo.func(CONGC, 'CongClosureHOL.merge')
-    mc = [c for c in _calls(m.node, 'merge') if (path_of(c.func.value) or '').endswith('closure') and len(c.args) == 2]
+    mc = [c for c in _calls(m.node, 'merge') if (path_of(c.func.value) or '').endswith('closure') and
+          (len(c.args) == 2 or (len(c.args) == 1 and isinstance(c.args[0], ast.Starred)))]
     st = [n for n in ast.walk(m.node) if isinstance(n, ast.Assign) and any(isinstance(t, ast.Subscript) and path_of(t.value) == 'self.pts' for t in n.targets)]
     need(mc and st, 'CongClosureHOL.merge: closure.merge(..) or the store into self.pts not found')
     key = st[0].targets[0].slice
-    ok = isinstance(key, ast.Tuple) and [src(e) for e in key.elts] == [src(a) for a in mc[0].args]
+    g4flow = flow_of(m.node)
+
+    def pair(e):
+        # the two constants an expression stands for: (a, b) written out, or one name for the pair (merge(*p), pts[p])
+        e = e.value if isinstance(e, ast.Starred) else e
+        v = g4flow.inline(e)
+        return [src(x) for x in v.elts] if isinstance(v, ast.Tuple) else ['*' + src(v)]
+    merged = pair(mc[0].args[0]) if len(mc[0].args) == 1 else [src(g4flow.inline(a)) for a in mc[0].args]
+    ok = pair(key) == merged
     res.add('%s :: CongClosureHOL.merge :: proof-key' % CONGC, ok,
             'self.pts[(%s)] for closure.merge(%s)' % (', '.join(src(a) for a in mc[0].args), ', '.join(src(a) for a in mc[0].args)) if ok else
             'the proof of a merged equation is stored under `%s` but the closure records the equation as (%s): explain() finds no proof for it and '
@@ -245,8 +255,9 @@ def rule_g7(repo):
     loop_vars = {x.id for x in ast.walk(lp.target) if isinstance(x, ast.Name)}
     assigned_in_loop = {t.id for st in lp.body for n in ast.walk(st) if isinstance(n, ast.Assign) for tt in n.targets
                         for t in ast.walk(tt) if isinstance(t, ast.Name)}
+    g7flow = flow_of(f.node)
     stores = [n for st in lp.body for n in ast.walk(st) if isinstance(n, ast.Assign) and any(
-        isinstance(t, ast.Subscript) and path_of(t.value) == 'self.proof_forest' for t in n.targets)]
+        isinstance(t, ast.Subscript) and path_of(g7flow.inline(t.value)) == 'self.proof_forest' for t in n.targets)]     # `forest = self.proof_forest`
     need(stores, '_add_edge_proof_forest: no store into the proof forest inside the loop')
     for s_ in stores:
         v = s_.value
